@@ -623,9 +623,9 @@ package storage
 //@   requires schemaOK(r.Relation) && r.Vals != nil && buf != nil
 //@   modifies mapof(r.Vals), bufver(buf), bufr(buf), storeState
 //@   ensures[content; C08] old(decodable(r, buf)) ==> result == nil && bufr(buf) == old(bufr(buf)) + atPos(len(r.Relation.Fields)) &&
-//@              (forall i int :: 0 <= i && i < len(r.Relation.Fields) ==> (atNull(i) ? colVal(r,i) == old(colVal(r,i)) : colIs(r,i)))
+//@              (forall i int :: 0 <= i && i < len(r.Relation.Fields) ==> (atNull(i) ? colVal(r,i) == old(colVal(r,i)) : colHolds(r,i)))
 //@   loop 1 invariant[content] old(decodable(r, buf)) ==> bufr(buf) == old(bufr(buf)) + atPos(rangeindex+1) &&
-//@              (forall i int :: 0 <= i && i <= rangeindex ==> (atNull(i) ? colVal(r,i) == old(colVal(r,i)) : colIs(r,i))) &&
+//@              (forall i int :: 0 <= i && i <= rangeindex ==> (atNull(i) ? colVal(r,i) == old(colVal(r,i)) : colHolds(r,i))) &&
 //@              (forall i int :: rangeindex < i && i < len(r.Relation.Fields) ==> colVal(r,i) == old(colVal(r,i)))
 
 //@ spec pred kindOK(t DataType) { t == TypeInt || t == TypeBigInt || t == TypeVarchar || t == TypeBoolean }
@@ -663,7 +663,7 @@ package storage
 //@        (forall i int :: 0 <= i && i < len(r.Relation.Fields) ==> r.Relation.Fields[i].DataType == atKind(i)) &&
 //@        (forall i, j int :: 0 <= i && i < j && j < len(r.Relation.Fields) ==> r.Relation.Fields[i].Name != r.Relation.Fields[j].Name) }
 // Column i of r holds the value of the abstract tuple (strings: same length and bytes).
-//@ spec pred colIs(r *Tuple, i int) {
+//@ spec pred colHolds(r *Tuple, i int) {
 //@        ((atKind(i) == TypeInt || atKind(i) == TypeBigInt) ==> typeof(colVal(r,i)) == typ(int64) && colVal(r,i).(int64) == atInt(i)) &&
 //@        (atKind(i) == TypeBoolean ==> typeof(colVal(r,i)) == typ(bool) && colVal(r,i).(bool) == atBool(i)) &&
 //@        (atKind(i) == TypeVarchar ==> typeof(colVal(r,i)) == typ(string) && len(colVal(r,i).(string)) == len(atStr(i)) &&
@@ -1186,7 +1186,7 @@ package storage
 //@ lemma[C12] wfInt: forall n *btreeNode :: !n.isLeaf && encodable(n) && intIs(n) ==> aiWF()
 
 // Tuple round trip: a tuple with the content of the abstract tuple, and a tuple decoded from its image into an empty map, agree column by column.
-//@ spec pred decodedAs(q *Tuple, n int) { forall i int :: 0 <= i && i < n ==> (atNull(i) ? colVal(q,i) == nil : colIs(q,i)) }
+//@ spec pred decodedAs(q *Tuple, n int) { forall i int :: 0 <= i && i < n ==> (atNull(i) ? colVal(q,i) == nil : colHolds(q,i)) }
 //@ spec pred sameCols(r *Tuple, q *Tuple, n int) { forall i int :: 0 <= i && i < n ==> ((colVal(r,i) == nil) <==> (colVal(q,i) == nil)) &&
 //@        (colVal(r,i) != nil ==>
 //@           ((atKind(i) == TypeInt || atKind(i) == TypeBigInt) ==> typeof(colVal(q,i)) == typ(int64) && colVal(q,i).(int64) == colVal(r,i).(int64)) &&
